@@ -366,6 +366,7 @@ class FixedOpts:
         self.kwcase = False
         self.extra_indent = False
         self.lit_cross = 50      # percent: let literals cross column 72 when wrap == 72
+        self.lit_pad = 0         # percent: pad before a literal so that it straddles column 72
         self.excl = set()
         self.names = None
         for k, v in kw.items():
@@ -421,7 +422,15 @@ def fixed_layout(flat, rnd, opts):
             if prev is not None:
                 gap = " " if needs_space(prev, txt) else default_gap(prev, txt)
             piece = gap + txt
-            if len(cur) + len(piece) <= W:
+            if (kind == "STR" and W == 72 and opts.lit_pad and len(txt) >= 3 and prev is not None
+                    and len(cur) + len(gap) < 70 and r.chance(opts.lit_pad)):
+                # pad with insignificant blanks so that the literal straddles column 72
+                k = r.n(1, len(txt) - 1)
+                padn = 72 - k - len(cur) - len(gap)
+                if padn > 0 and needs_space(prev, txt) is not None:
+                    gap = gap + " " * padn
+                    piece = gap + txt
+            if len(cur) + len(piece) <= W or prev is None:
                 cur += piece
             else:
                 room = 72 - len(cur) - len(gap)
@@ -429,6 +438,10 @@ def fixed_layout(flat, rnd, opts):
                             and r.chance(opts.lit_cross))
                 if crossing and "no_blank_at_col72" in opts.excl and (gap + txt)[72 - len(cur) - 1] == " ":
                     lay.excluded["no_blank_at_col72"] = lay.excluded.get("no_blank_at_col72", 0) + 1
+                    crossing = False
+                if crossing and (cur + (gap + txt)[:72 - len(cur)]).rstrip().endswith("&"):
+                    # a physical line ending in '&' makes the source look like free form: not generated
+                    lay.excluded["no_fixed_line_ending_in_amp"] = lay.excluded.get("no_fixed_line_ending_in_amp", 0) + 1
                     crossing = False
                 if crossing:
                     # fill the line to column 72 exactly; the literal continues on the next line
